@@ -8,6 +8,7 @@ package main
 import (
 	"fmt"
 	"math"
+	"math/big"
 	"strings"
 
 	"github.com/trajectoryjp/spatial_id_go/v4/common"
@@ -647,24 +648,42 @@ func evPointStore(t *Tracer, r Rng) {
 	case 3:
 		lat = float64(r.In(-8505112877, 8505112877)) / 1e8
 	}
+	evPointStoreAt(t, lon, lat, alt)
+}
+
+func evPointStoreAt(t *Tracer, lon, lat, alt float64) {
 	p, err := object.NewPoint(lon, lat, alt)
 	e := absW.ev("PointStore", map[string]any{"pt": hexTriple(lon, lat, alt)})
 	e.O = "ok"
 	if err != nil || p == nil {
 		e.O = "err"
-		e.R = map[string]any{"lon": false, "alt": false, "cut": 0, "toward": false}
+		e.R = map[string]any{"lon": false, "alt": false, "cut": 0, "toward": false, "ongrid": false}
 		t.Emit(e, true)
 		return
 	}
-	cut := (math.Abs(lat) - math.Abs(p.Lat())) / 1e-13
+	// exact difference of the two float64 values, in units of 1e-13 degree (floor)
+	a := new(big.Rat).SetFloat64(math.Abs(lat))
+	b := new(big.Rat).SetFloat64(math.Abs(p.Lat()))
+	d := new(big.Rat).Sub(a, b)
+	d.Mul(d, new(big.Rat).SetInt64(10000000000000))
+	cut := new(big.Int).Quo(d.Num(), d.Denom()) // both non-negative when "toward" holds
+	c := int64(1 << 20)
+	if cut.IsInt64() && cut.Int64() < c {
+		c = cut.Int64()
+	}
+	scaled := math.Abs(lat) * 1e10
 	e.R = map[string]any{"lon": math.Float64bits(p.Lon()) == math.Float64bits(lon),
 		"alt":    math.Float64bits(p.Alt()) == math.Float64bits(alt),
-		"cut":    int64(math.Ceil(cut)),
-		"toward": math.Abs(p.Lat()) <= math.Abs(lat) && (p.Lat() == 0 || (p.Lat() > 0) == (lat > 0))}
+		"cut":    c,
+		"toward": math.Abs(p.Lat()) <= math.Abs(lat) && (p.Lat() == 0 || (p.Lat() > 0) == (lat > 0)),
+		// the input already is (the nearest float64 to) a multiple of 1e-10 degree
+		"ongrid": math.Abs(scaled-math.Round(scaled)) < 1e-3}
 	t.Emit(e, true)
 }
 
 func driveInvalid(t *Tracer, r Rng, n int) {
+	// recorded finding D11: a latitude that already is a multiple of 1e-10 is cut by a whole step
+	evPointStoreAt(t, 139.5, 2.5414458836, 10)
 	for i := 0; i < n; i++ {
 		evPointStore(t, r)
 	}
@@ -672,6 +691,13 @@ func driveInvalid(t *Tracer, r Rng, n int) {
 
 func init() {
 	families["invalid"] = driveInvalid
+	reg("PointStore", func(t *Tracer, w Win, a map[string]any) {
+		var b [3]uint64
+		s, _ := a["pt"].(string)
+		if n, _ := sscanHex3(s, &b[0], &b[1], &b[2]); n == 3 {
+			evPointStoreAt(t, math.Float64frombits(b[0]), math.Float64frombits(b[1]), math.Float64frombits(b[2]))
+		}
+	})
 	reg("Invalid", func(t *Tracer, w Win, a map[string]any) {
 		cv, _ := a["cv"].([]any)
 		evInvalid(t, NewRng(int64(len(fmt.Sprint(cv)))*7919+replaySeed), a["fn"].(string), cv)
